@@ -104,8 +104,22 @@ C07_F1 == {C07_Call("vmod.r1a", <<<<C07_KA, C07_S("vmod.r1v")>>>>),
            C07_Call("vmod.r1a", <<<<C07_KA, SD("list", NoVal, <<<<IKey(0), C07_S("vmod.r1v")>>>>)>>>>),      \* a list argument (may be !extend-ed)
            C07_Import("vmod.r1a"),
            C07_Req, C07_S("vmod.r1v"), SD("dict", NoVal, <<>>)}
-C07_D1 == {C07_S("vmod.r1x"), C07_Unsafe(C07_S("vmod.r1y")), SD("list", NoVal, <<<<IKey(0), C07_S("vmod.r1x")>>>>)}
-C07_Stage1 == UNION { {SD("dict", NoVal, <<<<C07_KF, f>>, <<C07_KD, d>>>>),
+C07_D1 == {C07_S("vmod.r1x"), C07_Unsafe(C07_S("vmod.r1y")), SD("list", NoVal, <<<<IKey(0), C07_S("vmod.r1x")>>>>),
+           SD("list", NoVal, <<<<IKey(0), C07_Unsafe(C07_S("vmod.r1y"))>>>>)}          \* a safe container holding an unsafe item
+\* the referenced data comes BEFORE its consumer: d has been evaluated (outside any safety requirement) and is cached
+\* when the argument of f refers to it - directly, or through a reference g that was evaluated before as well
+C07_FRef == {C07_Call("vmod.r1a", <<<<C07_KA, C07_XRef(<<C07_KD>>)>>>>),
+             C07_Call("vmod.r1a", <<<<C07_KA, C07_Call("vmod.r1b", <<>>)>>, <<SKey("b"), C07_XRef(<<C07_KD>>)>>>>),
+             C07_Bind("vmod.r1a", <<<<C07_KA, C07_Call("vmod.r1b", <<>>)>>, <<SKey("b"), C07_XRef(<<C07_KD>>)>>>>)}
+C07_Stage1B == UNION { {SD("dict", NoVal, <<<<C07_KD, d>>, <<C07_KF, f>>>>),
+                        SD("dict", NoVal, <<<<C07_KD, d>>, <<C07_KF, C07_Unsafe(f)>>>>),
+                        C07_Unsafe(SD("dict", NoVal, <<<<C07_KD, d>>, <<C07_KF, f>>>>)),
+                        SD("dict", NoVal, <<<<C07_KD, d>>, <<SKey("g"), C07_XRef(<<C07_KD>>)>>,
+                                            <<C07_KF, C07_Call("vmod.r1a", <<<<C07_KA, C07_XRef(<<SKey("g")>>)>>>>)>>>>),
+                        SD("dict", NoVal, <<<<C07_KD, d>>, <<SKey("g"), SD("dict", NoVal, <<<<SKey("h"), C07_XRef(<<C07_KD>>)>>>>)>>,
+                                            <<C07_KF, C07_Call("vmod.r1a", <<<<C07_KA, C07_XRef(<<SKey("g")>>)>>>>)>>>>)}
+                     : f \in C07_FRef, d \in C07_D1 }
+C07_Stage1 == C07_Stage1B \cup UNION { {SD("dict", NoVal, <<<<C07_KF, f>>, <<C07_KD, d>>>>),
                        SD("dict", NoVal, <<<<C07_KF, IF f.k = "import" THEN f ELSE C07_Unsafe(f)>>, <<C07_KD, d>>>>),
                        C07_Unsafe(SD("dict", NoVal, <<<<C07_KF, f>>, <<C07_KD, d>>>>))}
                     : f \in C07_F1, d \in C07_D1 }
